@@ -8,32 +8,32 @@ ids = [json.loads(l)["id"] for l in open(os.path.join(ROOT, "properties.jsonl"))
 TECH = "deterministic whole-program simulation (std-facade substitution under a seeded scheduler) with fault injection; "
 CLAIMED = {
     "C18": dict(
-        level="fault_enumeration", ref="DESIGN.md 5/C18",
+        level="exploration", ref="DESIGN.md 5/C18",
         text="The C06 histories (writes, removes, increments, incremental and reclaiming snapshots, restarts over 1-2 databases) run with NUN_STORAGE_STRATEGY=s3 and s3_patition (1, 3 and 10 partitions, fixed per worker process) against an in-process S3 stub served over a real loopback socket to the real aws-sdk-s3; each restart is compared key by key, version by version and for id/strategy with the state captured when the snapshot completed. Fault sequences per history: the n-th PUT of an object fails once (result must equal the fault-free one), every PUT fails (must be reported by an error log or a failed snapshot, keys must stay pending, and once the store recovers a completed snapshot must restore everything), the first GET fails (restart succeeds or fails loudly). Faults are sampled per history, not enumerated over every request.",
         note="aws-sdk-s3/tokio/loopback socket are real and outside the scheduler (each SDK call is one atomic step); the S3 service is a stub; no crash between the PUTs of one snapshot",
         technique=TECH + "restart comparison against the state at the last completed snapshot with request-level upload/download faults in an S3 stub",
     ),
     "C08": dict(
         level="exploration", ref="DESIGN.md 5/C08",
-        text="Non-interference by paired deterministic runs: each seeded case (a non-administrator session sending 1-6 commands from 30 templates x 10 secure/plain key arguments, interleaved with administrator writes and version conflicts on $$ keys) is simulated twice with the same seed and schedule, the two worlds differing only in the values stored under $$ keys; the low session's transcripts must be identical, no low command may change a $$ key and $$token must survive remove.",
+        text="Non-interference by paired deterministic runs: each seeded case (a non-administrator session sending 1-6 commands from 30 templates x 10 secure/plain key arguments, interleaved with administrator writes and version conflicts on $$ keys) is simulated twice with the same seed and schedule, the two worlds differing only in the values stored under $$ keys; the low session's transcripts must be identical, no low command may change a $$ key and $$token must survive remove. The worlds also differ in the name of one secure key and in the permission list of a user the low session never logs in as.",
         note="no fault dimension; relies on the simulator's determinism; secret values have equal lengths in both worlds",
         technique=TECH + "two-run non-interference oracle over seeded command sequences",
     ),
     "C09": dict(
         level="exploration", ref="DESIGN.md 5/C09",
-        text="Seeded walk of the credential x command x permission-list x key matrix (35 commands = every parser command word, 7 login kinds, 9 permission lists, permission changes mid-session) against an access-control reference model on a node booted by start_db: a denied command must leave the full white-box state (databases, role, member table, snapshot queue, pending operations) unchanged and return no data line; an allowed one must not be refused for lack of credentials; a failed use-db must keep the previous selection.",
+        text="Seeded walk of the credential x command x permission-list x key matrix (35 commands = every parser command word, 7 login kinds, 9 permission lists, permission changes mid-session) against an access-control reference model on a node booted by start_db: a denied command must leave the full white-box state (databases, role, member table, snapshot queue, pending operations) unchanged and return no data line; an allowed one must not be refused for lack of credentials; a failed use-db must keep the previous selection. One case in eight runs the same walk on the primary of a 2-node cluster: a refused command must leave the secondary's data unchanged too.",
         note="essentially model-based input generation hosted in the simulator (the cluster commands' side effects really start threads); disruptive cluster commands are tested for refusal only",
         technique=TECH + "access-control reference model with full-state diff on refusal",
     ),
     "C20": dict(
         level="exploration", ref="DESIGN.md 5/C20",
-        text="Bodies of 1-6 ';'-separated statements (with trailing ';', blanks and spaces) are sent as one HTTP request to the real http_ops worker loop or as one WebSocket frame; the reference executes the same commands one at a time with a fresh direct session on a mirrored database set: entry i must equal what command i alone produces, counts must match, both database sets must end equal, and the request's session must leave no connection or watcher behind.",
+        text="Bodies of 1-6 ';'-separated statements (with trailing ';', blanks and spaces) are sent as one HTTP request to the real http_ops worker loop or as one WebSocket frame; the reference executes the same commands one at a time with a fresh direct session on a mirrored database set: entry i must equal what command i alone produces, counts must match, both database sets must end equal, and the request's session must leave no connection or watcher behind. The statement alphabet includes watch (later writes of the same request notify its own session).",
         note="input/history dominated; tiny_http / ws wire layers are facades; the CLI clause is outside the simulator",
         technique=TECH + "differential oracle (batched request vs one-command-at-a-time reference)",
     ),
     "C13": dict(
         level="exploration", ref="DESIGN.md 5/C13",
-        text="Seeded sequences of plain / versioned / stale writes interleaved with arbiter connect, disconnect and resolve (the arbiter is a harness session that echoes op id and version of the oldest notice) on an arbiter-strategy database, on one node and in 2-3 node clusters with arbiter and writer on the primary or a secondary; a conflict-queue model per key checks refusal vs queueing, the $conflicts_ records, once-per-registration delivery, the value after each resolution, writability and emptiness at the end and replica agreement.",
+        text="Seeded sequences of plain / versioned / stale writes interleaved with arbiter connect, disconnect and resolve (the arbiter is a harness session that echoes op id and version of the oldest notice) on an arbiter-strategy database, on one node and in 2-3 node clusters with arbiter and writer on the primary or a secondary; a conflict-queue model per key checks refusal vs queueing, the $conflicts_ records, once-per-registration delivery, the value after each resolution, writability and emptiness at the end and replica agreement. The arbiter answers its oldest or its newest notice.",
         note="arbiter client is a stub; an error reply is not required when a conflict is queued; arbiter/writer on a secondary are recorded known findings",
         technique=TECH + "conflict-queue reference model stepped operation by operation, replicas compared at quiescence",
     ),
@@ -45,7 +45,7 @@ CLAIMED = {
     ),
     "C05": dict(
         level="exploration", ref="DESIGN.md 5/C05",
-        text="A real primary accumulates a seeded history over 1-3 databases; the second real node has never been up, was killed or was shut down by SIGINT (with or without a snapshot on its simulated disk) and then (re)joins through the real join / election / replicate-since protocol while a writer keeps writing on the primary; at quiescence its white-box dump must equal the primary's (token, strategy, values byte for byte, versions, removed keys). Fault sequences = departure kind x split of the history x writes racing the synchronisation.",
+        text="A real primary accumulates a seeded history over 1-3 databases; the second real node has never been up, was killed or was shut down by SIGINT (with or without a snapshot on its simulated disk) and then (re)joins through the real join / election / replicate-since protocol while a writer keeps writing on the primary; at quiescence its white-box dump must equal the primary's (token, strategy, values byte for byte, versions, removed keys). Fault sequences = departure kind x split of the history x writes racing the synchronisation. During-sync writes are either spread over the first second or issued at the instant the primary can read the joiner's replicate-since request (so they interleave with the catch-up computation, incl. a targeted remove/overwrite of a key the catch-up carries); one history in twelve adds 90-260 keys while the node is away (catch-up longer than the link's 100-message channel, judged by key presence).",
         note="runs whose join does not settle are discarded unless a node panicked; most violation classes on the pinned tree are recorded known findings (catch-up format pinned by unit tests)",
         technique=TECH + "rejoin fault sequences with a dataset-equality oracle at quiescence",
     ),
@@ -57,7 +57,7 @@ CLAIMED = {
     ),
     "C04": dict(
         level="exploration", ref="DESIGN.md 5/C04",
-        text="2-3 real nodes form a cluster through the real join/election protocol over the simulated TCP (FIFO links, latency/jitter); 1-8 operations are issued by sessions at arbitrary nodes (sequentially with quiescence in between, back to back, or from two concurrent clients on the primary); at quiescence the white-box dump of every node (databases, strategy, per-key value / removed-or-live / version) must equal the primary's. Seeded search over programs x delivery interleavings.",
+        text="2-3 real nodes form a cluster through the real join/election protocol over the simulated TCP (FIFO links, latency/jitter); 1-8 operations are issued by sessions at arbitrary nodes (sequentially with quiescence in between, back to back, or from two concurrent clients on the primary); at quiescence the white-box dump of every node (databases, strategy, per-key value / removed-or-live / version) must equal the primary's. Seeded search over programs x delivery interleavings. Witness classes tell value-replacing writes from commuting ones (an increment-only divergence is a different class from the recorded set-on-a-secondary findings).",
         note="clusters that do not form with the oldest node as primary are discarded (C07's subject); $connections, oplog contents and ids are not compared; writes issued on secondaries and two racing clients on the primary are recorded known findings",
         technique=TECH + "multi-node convergence oracle over white-box dumps at quiescence",
     ),
@@ -75,25 +75,25 @@ CLAIMED = {
     ),
     "C03": dict(
         level="exploration", ref="DESIGN.md 5/C03",
-        text="Seeded search over lock-level interleavings of 1-2 writer and 1-2 subscriber sessions (watch/unwatch/unwatch-all/disconnect) on a node booted by start_db, direct and over the real TCP handler; the recorded history (global sequence stamps, unique values) is checked: every accepted write entirely inside a subscription is notified exactly once, refused and outside writes never, and the highest-versioned notification equals the final value.",
+        text="Seeded search over lock-level interleavings of 1-2 writer and 1-2 subscriber sessions (watch/unwatch/unwatch-all/disconnect) on a node booted by start_db, direct and over the real TCP handler; the recorded history (global sequence stamps, unique values) is checked: every accepted write entirely inside a subscription is notified exactly once, refused and outside writes never, and the highest-versioned notification equals the final value. Values are mostly unique, one write in five repeats the key's previous value (notifications are then judged by count per value).",
         note="boundary-overlapping mutations may or may not be notified; increments/removes judged by counts; shuttle SeqCst",
         technique=TECH + "history check of notifications against subscription intervals",
     ),
     "C10": dict(
         level="exploration", ref="DESIGN.md 5/C10",
-        text="Grammar-based hostile lines (every parser command word x hostile token alphabet, raw bytes, pipelining without reading) are sent over the real TCP / WebSocket / HTTP handlers of a node booted by start_db on the simulated wire, unauthenticated and as administrator; after every line the harness checks that no task of the node panicked and that a second client can connect and complete a set/get round trip; sampling.",
+        text="Grammar-based hostile lines (every parser command word x hostile token alphabet, raw bytes, pipelining without reading) are sent over the real TCP / WebSocket / HTTP handlers of a node booted by start_db on the simulated wire, unauthenticated and as administrator; after every line the harness checks that no task of the node panicked and that a second client can connect and complete a set/get round trip; sampling. Long tokens are ASCII or 2/3/4-byte characters; optionally a second administrator connection sends its i-th line at the same instant as the attacker's i-th line, and a scenario of two administrator connections issuing well-formed database-switch / create-db / named-snapshot commands exercises the lock paths; half of the seeds model std's writer-preferring RwLock.",
         note="overflow checks on (test-profile semantics); panics are caught per task like OS threads and recorded with their source location; ws/http wire framing is the facade's",
         technique=TECH + "seeded grammar fuzzing of the wire protocol with panic capture and liveness probes",
     ),
     "C17": dict(
         level="exploration", ref="DESIGN.md 5/C17",
-        text="Seeded sequences of connect / use-db (same, other, wrong token, user token) / refused command / disconnect / HTTP request over the three real transports on the simulated wire; a counted observer session per database compares $connections with a counter model at every quiescent point and checks that its watcher saw every change; an interleaved scenario judges the end state of two concurrent sessions.",
+        text="Seeded sequences of connect / use-db (same, other, wrong token, user token) / refused command / disconnect / HTTP request over the three real transports on the simulated wire; a counted observer session per database compares $connections with a counter model at every quiescent point and checks that its watcher saw every change; an interleaved scenario judges the end state of two concurrent sessions. A burst scenario lets 2-4 direct sessions select (and switch) databases at the same instant, checks every counter, then lets all leave at the same instant and checks again.",
         note="compared at quiescent points only; simulated TCP and ws/tiny_http facades",
         technique=TECH + "per-event comparison with a session-counter model through the public surface",
     ),
     "C12": dict(
         level="exploration", ref="DESIGN.md 5/C12",
-        text="Logs are produced by the real replication loop of a simulated primary (real rotation, real declutter retention, restarts, optional coarse clock) and every query of read_operations_since / last_op_time is compared with a linear scan of the same simulated files; sampling of logs and since values.",
+        text="Logs are produced by the real replication loop of a simulated primary (real rotation, real declutter retention, restarts, optional coarse clock) and every query of read_operations_since / last_op_time is compared with a linear scan of the same simulated files; sampling of logs and since values. At every quiet point the records seen at the previous one must still be in the files unless a declutter or a restart happened in between (strict clock only).",
         note="the search routine itself is a pure function of file contents (input/history dominated); coarse-clock ties are recorded known findings",
         technique=TECH + "differential check of the oplog query against a linear-scan reference over the simulated files",
     ),
@@ -111,7 +111,7 @@ CLAIMED = {
     ),
     "C11": dict(
         level="fault_enumeration", ref="DESIGN.md 5/C11",
-        text="For each seeded dataset pair the mutating disk calls of the interrupted snapshot are counted in a fault-free run, then the node is killed before/after call k (quick: 6 sampled points per dataset, thorough: every point) and restarted by the real start_db; every key must hold its old or its new (value, version), persisted keys must survive, neighbours must be untouched. Crash points are enumerated per dataset; datasets are sampled.",
+        text="For each seeded dataset pair the mutating disk calls of the interrupted snapshot are counted in a fault-free run, then the node is killed before/after call k (quick: 6 sampled points per dataset, thorough: every point) and restarted by the real start_db; every key must hold its old or its new (value, version), persisted keys must survive, neighbours must be untouched. Crash points are enumerated per dataset; datasets are sampled. A quarter of the datasets add 6-30 new keys with names of 1-70 bytes and short or long values, so that the keys and values buffers spill at different moments.",
         note="crash model = process kill (completed syscalls survive, user-space buffers are lost); no fsync/power-loss claim; the space-reclaiming path is a recorded known finding (known_findings.json)",
         technique=TECH + "crash-point enumeration over every mutating disk call of the snapshot path, restart and old-or-new oracle",
     ),
